@@ -385,12 +385,13 @@ class Twins:
         reference-transaction blocks left without any ref line (a transaction that held only refs/notes/ai* in the proxy
         twin corresponds to an empty or absent transaction in the plain twin)."""
         blocks = []
+        head_re = re.compile(r"^(" + "|".join(re.escape(h) for h in USER_HOOKS) + r")( |$)")
         for ln in delta.split("\n"):
-            if re.match(r"^[0-9a-f]{40} ", ln) and blocks:
-                if "refs/notes/ai" not in ln:
-                    blocks[-1][1].append(ln)
-            elif ln != "":
-                blocks.append((ln, []))
+            if head_re.match(ln) or not blocks:
+                if ln != "":
+                    blocks.append((ln, []))
+            elif "refs/notes/ai" not in ln:
+                blocks[-1][1].append(ln)
         out = []
         for head, lines in blocks:
             if head.startswith("reference-transaction ") and not lines:
